@@ -149,8 +149,69 @@ def _r11_3(prog: Program, res: Result) -> None:
                         isinstance(val, ast.Call) and isinstance(val.func, ast.Attribute) and val.func.attr in SURGERY)))
                     if surgery and a.lineno < st.lineno:
                         edits.append(a)
+            # (1) the spelling as COLLECTED: the collection it is drawn from must hold spellings of the value only - each
+            # element parsed and matched against Constant(value), or filed under a key computed from the very node it is
+            # the text of (pieces of f-strings are constants too, but their text is not a literal: `'id'` inside
+            # f"'id'{x}" denotes the three characters WITH the quotes)
+            drawn = None
+            for a in ast.walk(scope):
+                if isinstance(a, ast.Assign) and any(isinstance(t, ast.Name) and t.id == v for t in a.targets):
+                    for x in ast.walk(a.value):
+                        if isinstance(x, ast.Subscript) and isinstance(x.value, ast.Name) and isinstance(x.ctx, ast.Load) and x.value.id != v:
+                            cand = x.value.id
+                            if any(isinstance(b, ast.Assign) and isinstance(b.targets[0], ast.Name) and b.targets[0].id == cand
+                                   and "defaultdict" in norm(b.value) for b in walk_own(fn.node)):
+                                drawn = cand
+                    if isinstance(a.value, ast.Name) and drawn is None:
+                        # through a local: original_formattings = C[key]
+                        for b in ast.walk(scope):
+                            if isinstance(b, ast.Assign) and any(isinstance(t, ast.Name) and t.id == a.value.id for t in b.targets) \
+                                    and isinstance(b.value, ast.Subscript) and isinstance(b.value.value, ast.Name):
+                                drawn = b.value.value.id
+            if drawn is None:
+                for a in ast.walk(scope):
+                    if isinstance(a, ast.Assign) and any(isinstance(t, ast.Name) and t.id == v for t in a.targets):
+                        for x in ast.walk(a.value):
+                            if isinstance(x, ast.Name):
+                                for b in ast.walk(scope):
+                                    if isinstance(b, ast.Assign) and any(isinstance(t, ast.Name) and t.id == x.id for t in b.targets) \
+                                            and isinstance(b.value, ast.Subscript) and isinstance(b.value.value, ast.Name):
+                                        drawn = b.value.value.id
+            filtered = by_key = False
+            if drawn is not None:
+                for lp in walk_own(fn.node):
+                    if isinstance(lp, ast.For) and drawn in norm(lp.iter):
+                        for comp in ast.walk(lp):
+                            if isinstance(comp, (ast.ListComp, ast.SetComp, ast.GeneratorExp)) and comp.generators[0].ifs:
+                                cond = " and ".join(norm(c_) for c_ in comp.generators[0].ifs)
+                                elem = norm(comp.generators[0].target)
+                                if "match_template(" in cond and f"parse({elem})" in cond:
+                                    filtered = True
+                    # C[unparse(node)].append(get_code(node)): key and element are two views of one node
+                    if isinstance(lp, ast.For) and isinstance(lp.target, ast.Name):
+                        nv = lp.target.id
+                        for c_ in ast.walk(lp):
+                            if isinstance(c_, ast.Call) and isinstance(c_.func, ast.Attribute) and c_.func.attr in ("append", "add") \
+                                    and isinstance(c_.func.value, ast.Subscript) and norm(c_.func.value.value) == drawn and c_.args:
+                                key_e, elem_e = c_.func.value.slice, c_.args[0]
+
+                                def from_node(e):
+                                    if any(isinstance(y, ast.Name) and y.id == nv for y in ast.walk(e)):
+                                        return True
+                                    return any(isinstance(y, ast.Name) and any(
+                                        isinstance(d, ast.Assign) and any(isinstance(t, ast.Name) and t.id == y.id for t in d.targets)
+                                        and any(isinstance(z, ast.Name) and z.id == nv for z in ast.walk(d.value)) for d in ast.walk(lp)) for y in ast.walk(e))
+                                if from_node(key_e) and from_node(elem_e) and ".value" not in norm(key_e):
+                                    by_key = True
+            if drawn is not None and not (filtered or by_key):
+                res.bad("R11.3", fn.loc(st), fn.fq, short(st, 70),
+                        f"'{v}' is drawn from '{drawn}', whose collected spellings are never parsed and matched against the value of the literal: the text of an f-string "
+                        "piece that looks like a quoted literal is taken for a spelling of the string with the quotes stripped")
+                continue
             if not edits:
-                res.ok("R11.3", fn.loc(st), fn.fq, short(st, 70), f"'{v}' is stored as it was validated (no edit of the spelling in between)")
+                res.ok("R11.3", fn.loc(st), fn.fq, short(st, 70),
+                       f"'{v}' is used as collected" + (f" from '{drawn}', whose spellings were each parsed and matched against the value" if filtered else
+                                                        f" from '{drawn}', filed under a key computed from the same node" if by_key else ""))
                 continue
             last = max(edits, key=lambda a: a.lineno)
             # a validation of v after the last edit that guards the store: `if not (.. match_template(core.parse(v), ..)): continue`
